@@ -160,7 +160,12 @@ func (goh *GoatOverHttp) ServeHTTP(w http.ResponseWriter, r *http.Request) {
 	}
 
 	vGate("http.serve.window", goh, rpc.GetId())
-	conn.readCh <- &rpc
+	select {
+	case conn.readCh <- &rpc:
+	case <-conn.done:
+		log.Error().Msgf("GoatOverHttp: connection to %s closed", source)
+		http.Error(w, "connection closed", http.StatusServiceUnavailable)
+	}
 }
 
 // connectionCleaner ticks every |connectionCleanupInterval|, closing any
@@ -198,6 +203,7 @@ func (goh *GoatOverHttp) retrieve(id string) (*httpReadWriter, bool) {
 		conn = &httpReadWriter{
 			writeAddr: id,
 			readCh:    make(chan *Rpc),
+			done:      make(chan struct{}),
 			cancel:    func() { goh.unregister(id) },
 			clock:     goh.clock,
 		}
@@ -217,7 +223,9 @@ func (goh *GoatOverHttp) unregister(id string) {
 
 func (goh *GoatOverHttp) unregisterLocked(id string) {
 	if conn, ok := goh.conns.value[id]; ok {
-		close(conn.readCh)
+		// readCh is never closed: a ServeHTTP call may be about to send on it
+		// (or be blocked sending on it), which would panic.
+		close(conn.done)
 	}
 
 	delete(goh.conns.value, id)
@@ -226,6 +234,7 @@ func (goh *GoatOverHttp) unregisterLocked(id string) {
 type httpReadWriter struct {
 	writeAddr string
 	readCh    chan *Rpc
+	done      chan struct{} // closed when the connection is unregistered
 	cancel    func()
 
 	clock        clockwork.Clock
@@ -236,11 +245,10 @@ func (hrw *httpReadWriter) Read(ctx context.Context) (*Rpc, error) {
 	select {
 	case <-ctx.Done():
 		return nil, ctx.Err()
-	case rpc, ok := <-hrw.readCh:
-		if !ok {
-			log.Error().Msgf("HttpRpcReadWriter: read err: closed")
-			return nil, errors.New("readCh closed")
-		}
+	case <-hrw.done:
+		log.Error().Msgf("HttpRpcReadWriter: read err: closed")
+		return nil, errors.New("readCh closed")
+	case rpc := <-hrw.readCh:
 		hrw.bumpActivity()
 		return rpc, nil
 	}
